@@ -153,7 +153,7 @@ def cases(c):
                 for cplx in (0, 1):
                     out.append({'N': N, 'order': order, 'cplx': cplx, 'kind': 'noise', 'cont': 'array',
                                 'directed': True})
-    for i in range(1500 if c.tier == 'quick' else 60000):
+    for i in range(1500 if c.tier == 'quick' else 240000):
         N = int(rng.integers(3, 201 if i % 3 == 0 else 64))
         out.append({'N': N, 'order': int(rng.integers(1, min(N - 1, 30) + 1)), 'cplx': int(rng.integers(0, 2)),
                     'kind': gen.pick(rng, KINDS), 'cont': gen.pick(rng, ['array', 'array', 'list']),
